@@ -1123,3 +1123,39 @@ func callAllRows(col proto.Column, name string, rows int) string {
 	}
 	return ""
 }
+
+// pokeColumn overwrites the rows of col in place with the contents c (same number of rows) WITHOUT Reset/Append: through the
+// exported Values field (LowCardinality, enum) or, for columns that are slices, element by element.  false = this column type
+// has no such access (the caller falls back to Reset + Append).
+func pokeColumn(col proto.Column, c *CNode) (ok bool) {
+	defer func() {
+		if recover() != nil {
+			ok = false
+		}
+	}()
+	if col.Rows() != c.NRows() || c.NRows() == 0 {
+		return false
+	}
+	rv := reflect.ValueOf(col)
+	if rv.Kind() != reflect.Ptr {
+		return false
+	}
+	el := rv.Elem()
+	switch {
+	case el.Kind() == reflect.Struct && c.T.Kind == "lc":
+		vals := el.FieldByName("Values")
+		if !vals.IsValid() || vals.Kind() != reflect.Slice || vals.Len() != c.NRows() || !vals.CanSet() {
+			return false
+		}
+		for i := 0; i < c.NRows(); i++ {
+			vals.Index(i).Set(mkValue(vals.Type().Elem(), c, i))
+		}
+		return true
+	case el.Kind() == reflect.Slice && c.T.Kind == "fixed" && el.Len() == c.NRows():
+		for i := 0; i < c.NRows(); i++ {
+			el.Index(i).Set(mkValue(el.Type().Elem(), c, i))
+		}
+		return true
+	}
+	return false
+}
